@@ -9,55 +9,55 @@ props = [json.loads(l)["id"] for l in (VERIF / "properties.jsonl").read_text().s
 
 CLAIMED = {
     "C04": dict(
-        technique="static analysis: slot-family extraction over the ast (producers of name<->index pairs normalised by inlining the model's accessors), def-use of remove_unused in sorted_assignments, template skeleton parsing",
+        technique="static analysis: slot-family extraction over the ast (producers of name<->index pairs normalised by inlining the model's accessors), def-use of remove_unused in sorted_assignments, template skeleton parsing; since the rebuild the function-level clauses are decided on abstract values (sa/av.py: symbolic summaries of what a function computes, compared with the vetted reference value; three-valued: ok / violation / undecided)",
         text="Decides the structure the property factors through, for all models at once: every producer of a (name, index) pair (18 sites: enumerate / counters / template lists / matrices) numbers its family's slots over a sequence proven order-equivalent to the family's public index function; index templates refuse unknown names; init templates use their own index function; the argument-order enums are exactly the permutations and only reach the formal list; declared counts belong to the family's size class.",
         note="Assumes sympy prints Indexed(X,i) as X[i] and that sequence expressions keep the shapes the normaliser knows (comprehensions, tuple/list, accessor calls); an unknown shape is reported, never assumed equal. No generated code is executed.",
         ref="3/C04",
     ),
     "C05": dict(
-        technique="static analysis: path enumeration of the scheme builder + AC-normalised term comparison; alias table and template/Func-tuple inspection",
+        technique="static analysis: path enumeration of the scheme builder + AC-normalised term comparison; alias table and template/Func-tuple inspection; since the rebuild the function-level clauses are decided on abstract values (sa/av.py: symbolic summaries of what a function computes, compared with the vetted reference value; three-valued: ok / violation / undecided)",
         text="Decides, for every model at once, that each path of explicit_euler for a state derivative prints the derivative first and stores exactly STATE + DT*DERIV at the state's slot (counter advanced once, after the store), that every accepted alias and Scheme member maps to the builder of its family and the generated function carries the requested name, that the result array is freshly allocated and inputs are const / never stored through, and that the dt symbol is the formal argument. Numerical equality up to rounding is not decided.",
         note="Terms are compared syntactically modulo associativity/commutativity of + and *; sympy's printing of Add/Mul/Indexed is trusted.",
         ref="3/C05",
     ),
     "C06": dict(
-        technique="static analysis: path table of generalized_rush_larsen against reference terms; condition-chain analysis of fraction_numerator_is_nonzero; per-scheme evaluation of add_schemes' keyword arguments",
+        technique="static analysis: path table of generalized_rush_larsen against reference terms; condition-chain analysis of fraction_numerator_is_nonzero; per-scheme evaluation of add_schemes' keyword arguments; since the rebuild the function-level clauses are decided on abstract values (sa/av.py: symbolic summaries of what a function computes, compared with the vetted reference value; three-valued: ok / violation / undecided)",
         text="Decides the formula structure: Euler fallback iff the own-state derivative is identically zero, guarded exponential-integrator term iff the zero-division check is needed, plain term otherwise, linearisation = diff of the state's own expression w.r.t. its own state and printed before use; the guard is elided only for a**-1 and products of accepted factors; delta reaches the guard for every scheme that takes it. Convergence / exactness / finiteness are numerical consequences and are not decided.",
         note="sympy.diff and the printers are trusted; predicates are opaque atoms.",
         ref="3/C06",
     ),
     "C07": dict(
-        technique="static analysis: sibling cross-check of path tables (hybrid vs explicit Euler vs generalized RL) after term normalisation; option-flow of stiff_states/delta",
+        technique="static analysis: sibling cross-check of path tables (hybrid vs explicit Euler vs generalized RL) after term normalisation; option-flow of stiff_states/delta; since the rebuild the function-level clauses are decided on abstract values (sa/av.py: symbolic summaries of what a function computes, compared with the vetted reference value; three-valued: ok / violation / undecided)",
         text="Decides that hybrid_rush_larsen's path table is {not STIFF or DIFF_ZERO -> the explicit Euler term; STIFF and not DIFF_ZERO -> exactly the two generalized-RL terms}, with STIFF := state name in set(stiff_states) (None = empty), same slot discipline, and that stiff_states/delta reach exactly the builders that take them.",
         note="Numerical agreement of generated steps is not decided; the three builders are compared as term tables.",
         ref="3/C07",
     ),
     "C09": dict(
-        technique="static analysis: order-provenance dataflow (annotation-typed set/dict/sequence values with HASH taints, interprocedural summaries, sinks = emitted text / slot numbers / topological sorter / templates / ordered accessors) + who-may-write check for process-global state",
+        technique="static analysis: order-provenance dataflow (annotation-typed set/dict/sequence values with HASH taints, interprocedural summaries, sinks = emitted text / slot numbers / topological sorter / templates / ordered accessors) + who-may-write check for process-global state; since the rebuild the function-level clauses are decided on abstract values (sa/av.py: symbolic summaries of what a function computes, compared with the vetted reference value; three-valued: ok / violation / undecided)",
         text="Decides, for all models and hash seeds at once, that no order derived from iterating a set/frozenset (or from a sort with a non-injective key) reaches an order-sensitive sink on the load->generate->save path (all ~30 set-iteration sites are enumerated and discharged), and that no function of the package writes module-level objects (history independence).",
         note="Receiver types come from the package's annotations (no type checker available); untyped operands are counted and assumed to be external ordered sequences. sympy/graphlib/lark are assumed deterministic given ordered inputs. myokit.py is out of scope.",
         ref="3/C09",
     ),
     "C10": dict(
-        technique="static analysis: the same order-provenance dataflow with TEXT taints (ODE.components keeps first-appearance order) + container-kind checks in the transformer",
+        technique="static analysis: the same order-provenance dataflow with TEXT taints (ODE.components keeps first-appearance order) + container-kind checks in the transformer; since the rebuild the function-level clauses are decided on abstract values (sa/av.py: symbolic summaries of what a function computes, compared with the vetted reference value; three-valued: ok / violation / undecided)",
         text="Decides that the textual order of blocks/entries/lines is discarded (atoms gathered in frozensets), that the one sequence that keeps text order (ODE.components) reaches no emitted code, slot number, sorter input or ordered accessor, and that ODE.__eq__ does not compare it element-wise.",
         note="lark delivers children in text order; comments' own order is exempt (the property does not permute them).",
         ref="3/C10",
     ),
     "C12": dict(
-        technique="static analysis: provenance of every removal predicate (must be `name in ODE.dependents()`), loop/filter shape of dependents(), call-site arguments of the unpack helpers, purity of generator methods, STATE slot family",
+        technique="static analysis: provenance of every removal predicate (must be `name in ODE.dependents()`), loop/filter shape of dependents(), call-site arguments of the unpack helpers, purity of generator methods, STATE slot family; since the rebuild the function-level clauses are decided on abstract values (sa/av.py: symbolic summaries of what a function computes, compared with the vetted reference value; three-valued: ok / violation / undecided)",
         text="Decides that liveness is computed from the complete, unfiltered dependency relation, that only rhs filters the state unpacking while schemes/monitors unpack every state they read, that generator methods keep no state between calls, and that the state slot layout is independent of remove_unused (post-sort filter over intermediates only).",
         note="Numerical equality of the two generated modules is not decided.",
         ref="3/C12",
     ),
     "C18": dict(
-        technique="static analysis: parameter def-use / keyword-forwarding flow over the typer commands, mains and get_code; evaluation-order check of load -> generate -> write; config-key table cross-checked with docs/config.md",
+        technique="static analysis: parameter def-use / keyword-forwarding flow over the typer commands, mains and get_code; evaluation-order check of load -> generate -> write; config-key table cross-checked with docs/config.md; since the rebuild the function-level clauses are decided on abstract values (sa/av.py: symbolic summaries of what a function computes, compared with the vetted reference value; three-valued: ok / violation / undecided)",
         text="Decides that every option a conversion command accepts reaches the dispatched main (and from there get_code / the generator / add_schemes / the formatter / the output path), per scheme which keyword arguments are passed, that the output file is touched only after generation returned and holds get_code's text unmodified with no handler around it, that an explicit --config wins, and that every documented configuration key is read with the CLI value as default into the forwarded variable.",
         note="Exit codes as seen from a shell and typer's own validation are not decided.",
         ref="3/C18",
     ),
     "C20": dict(
-        technique="static analysis: STATE slot family for the matrix builders; bound/def-use analysis of the substitution loop; wiring of jacobi_matrix",
+        technique="static analysis: STATE slot family for the matrix builders; bound/def-use analysis of the substitution loop; wiring of jacobi_matrix; since the rebuild the function-level clauses are decided on abstract values (sa/av.py: symbolic summaries of what a function computes, compared with the vetted reference value; three-valued: ok / violation / undecided)",
         text="Decides that states_matrix/rhs_matrix use the state order of the generated code, that the intermediate-expansion loop substitutes the complete, unmodified map until none are left with a bound that is absent or derived from the model's size (also at every call site), raising only if something is left, and that jacobi_matrix = rhs_matrix(ode).jacobian(states_matrix(ode)).",
         note="Equality of the matrices with the model's derivatives is not decided (sympy's xreplace/jacobian trusted).",
         ref="3/C20",
@@ -66,67 +66,67 @@ CLAIMED = {
 
 CLAIMED.update({
     "C01": dict(
-        technique="static analysis: path/term tables of binary_op / unary_op / Conditional / ContinuousConditional, grammar-model comparison of the precedence ladder and function vocabulary, printer-resolution table (sympy MRO + ast of gotranx overrides), STATE slot family",
+        technique="static analysis: path/term tables of binary_op / unary_op / Conditional / ContinuousConditional, grammar-model comparison of the precedence ladder and function vocabulary, printer-resolution table (sympy MRO + ast of gotranx overrides), STATE slot family; since the rebuild the function-level clauses are decided on abstract values (sa/av.py: symbolic summaries of what a function computes, compared with the vetted reference value; three-valued: ok / violation / undecided)",
         text="Decides structural necessary conditions of the front end and of rhs emission for all models at once: operator table and fold direction, precedence ladder, function vocabulary bound to the right sympy objects, conditional builders, definition-before-use, time aliases, NumPy printer coverage of every producible class, and that each derivative lands in its state's slot. It does NOT decide numerical equality to rounding.",
         note="sympy's inherited printers are trusted as recorded in the vetted table (sympy 1.14.0); numerics are not decided.",
         ref="3/C01",
     ),
     "C02": dict(
-        technique="static analysis: C printer resolution table with vetted verdicts, ast checks of gotranx overrides (Mod, Piecewise, Float), regex-AST check of post-processing, C template / count / slot-family checks",
+        technique="static analysis: C printer resolution table with vetted verdicts, ast checks of gotranx overrides (Mod, Piecewise, Float), regex-AST check of post-processing, C template / count / slot-family checks; since the rebuild the function-level clauses are decided on abstract values (sa/av.py: symbolic summaries of what a function computes, compared with the vetted reference value; three-valued: ok / violation / undecided)",
         text="Decides necessary conditions: every producible class is printed by a vetted value-preserving method or an analysed gotranx method (Mod with the divisor's sign, ternary conditionals), post-processing only rewrites whole words, index chains / counts / const formals / slot layout have the required shape. The known integer-division defect is reported as a KNOWN-FINDING. That the C code compiles and agrees numerically is not decided.",
         note="Only a compiler decides compilation; numerics not decided; printer table for sympy 1.14.0.",
         ref="3/C02",
     ),
     "C03": dict(
-        technique="static analysis: size-class analysis of num_return_values vs the extent of the filled array, template skeleton checks, JaxPrinter rewrite rule, emitted-API table",
+        technique="static analysis: size-class analysis of num_return_values vs the extent of the filled array, template skeleton checks, JaxPrinter rewrite rule, emitted-API table; since the rebuild the function-level clauses are decided on abstract values (sa/av.py: symbolic summaries of what a function computes, compared with the vetted reference value; three-valued: ok / violation / undecided)",
         text="Decides that every method hands the JAX template the extent of the array it fills, that the template returns exactly _values_0.._values_{n-1} in order and JaxPrinter rewrites exactly the stores into `values`, that templates are functional (no in-place stores) and that every numpy.<name> a print method can emit is callable that way under jax.numpy with n-ary And/Or keeping all operands. Importability / jit / numerics are not decided.",
         note="jax itself is not executed.",
         ref="3/C03",
     ),
     "C08": dict(
-        technique="static analysis: guard-structure checks (registry scope, redefinition raise before set merge, recorded kinds, predicate), pairing guards, frozen table of every except clause",
+        technique="static analysis: guard-structure checks (registry scope, redefinition raise before set merge, recorded kinds, predicate), pairing guards, frozen table of every except clause; since the rebuild the function-level clauses are decided on abstract values (sa/av.py: symbolic summaries of what a function computes, compared with the vetted reference value; three-valued: ok / violation / undecided)",
         text="Decides that the guards exist, see every definition and cannot be bypassed: redefinitions raise before atoms are merged in sets, gather_atoms records all four kinds (tagged), check_components runs first for every component, d<x>_dt always goes through find_state, undefined symbols become MissingSymbolError, and no except clause outside the vetted table can swallow an error. That every concrete ill-formed text raises is not decided.",
         note="lark / graphlib behaviour trusted.",
         ref="3/C08",
     ),
     "C11": dict(
-        technique="static analysis: writer-vocabulary vs grammar-vocabulary (printer resolution table x grammar model), operator table, coverage of the writer helpers",
+        technique="static analysis: writer-vocabulary vs grammar-vocabulary (printer resolution table x grammar model), operator table, coverage of the writer helpers; since the rebuild the function-level clauses are decided on abstract values (sa/av.py: symbolic summaries of what a function computes, compared with the vetted reference value; three-valued: ok / violation / undecided)",
         text="Decides that everything the writer can emit for a producible class is accepted by ode.lark with the right head per operator and all operands, that all sections / atoms / annotations are written unmodified, header-less expressions first, and that the reader applies functions to all arguments. Numerical equality after reload is not decided.",
         note="sympy StrPrinter rows as vetted for 1.14.0.",
         ref="3/C11",
     ),
     "C13": dict(
-        technique="static analysis: definition of missing_variables, sibling agreement of the four generator methods and two templates, path enumeration of the missing_values loops (counter discipline)",
+        technique="static analysis: definition of missing_variables, sibling agreement of the four generator methods and two templates, path enumeration of the missing_values loops (counter discipline); since the rebuild the function-level clauses are decided on abstract values (sa/av.py: symbolic summaries of what a function computes, compared with the vetted reference value; three-valued: ok / violation / undecided)",
         text="Decides that missing variables are exactly used-minus-defined in sorted numbering, that rhs / monitor_values / missing_values / scheme all unpack them and pass the formal, that missing_values can export states, parameters and every assignment at the requested slot with the early exit after the store, that the jax template returns slots in order, and that model - C / C.to_ode() keep the right components. Numerical agreement of sub-models is not decided.",
         note="",
         ref="3/C13",
     ),
     "C14": dict(
-        technique="static analysis: array-safety lint over the NumPy printer resolution table (vetted inherited methods + fragments of gotranx methods), class-table constant folding, shape-template checks",
+        technique="static analysis: array-safety lint over the NumPy printer resolution table (vetted inherited methods + fragments of gotranx methods), class-table constant folding, shape-template checks; since the rebuild the function-level clauses are decided on abstract values (sa/av.py: symbolic summaries of what a function computes, compared with the vetted reference value; three-valued: ok / violation / undecided)",
         text="Decides that no scalar-only or batch-reducing construct can be emitted for any producible class (conditional expressions, and/or/not, math.*, reductions such as numpy.all / allclose / .reduce), that a surviving Not is normalised before printing, and that result shapes use the batch axis states.shape[1] for all three Shape members. Column-wise numerical equality is not decided.",
         note="sympy 1.14.0 vetted table.",
         ref="3/C14",
     ),
     "C15": dict(
-        technique="static analysis: clone-consistency and bookkeeping checks of the Myokit converter (rename sites, substitution chains, initial-value lookup, two-pass export)",
+        technique="static analysis: clone-consistency and bookkeeping checks of the Myokit converter (rename sites, substitution chains, initial-value lookup, two-pass export); since the rebuild the function-level clauses are decided on abstract values (sa/av.py: symbolic summaries of what a function computes, compared with the vetted reference value; three-valued: ok / violation / undecided)",
         text="Decides only necessary bookkeeping conditions of the converter. The main content of the property - the generated rhs equals Myokit's own evaluation - is NOT decided and cannot be decided statically; this check is claimed for the clauses named in its evidence only.",
         note="Myokit is not executed; dynamics are not decided.",
         ref="3/C15",
     ),
     "C16": dict(
-        technique="static analysis: shape of the singularity rewrite (linear use of the original expression), skip predicate, search loop, lookup scope",
+        technique="static analysis: shape of the singularity rewrite (linear use of the original expression), skip predicate, search loop, lookup scope; since the rebuild the function-level clauses are decided on abstract values (sa/av.py: symbolic summaries of what a function computes, compared with the vetted reference value; three-valued: ok / violation / undecided)",
         text="Decides that the rewrite uses the original expression once on the regular branch (today it does not: KNOWN-FINDING, a test pins the defective output), that exactly the infinite singularities are skipped, that the search covers every stateful dependency model-wide without early exit, and that nothing changes without singularities. Correctness of sympy's limits and numerical agreement are not decided.",
         note="sympy.singularities / limit trusted.",
         ref="3/C16",
     ),
     "C17": dict(
-        technique="static analysis: taint of free text (comment / unit strings) into evaluators, handler breadth, regex star-height, grammar-model checks of the comment terminal and tagged blocks, who-may-read table for annotation attributes",
+        technique="static analysis: taint of free text (comment / unit strings) into evaluators, handler breadth, regex star-height, grammar-model checks of the comment terminal and tagged blocks, who-may-read table for annotation attributes; since the rebuild the function-level clauses are decided on abstract values (sa/av.py: symbolic summaries of what a function computes, compared with the vetted reference value; three-valued: ok / violation / undecided)",
         text="Decides which code can see comment / annotation text and what it may do with it: evaluators reached (three KNOWN-FINDINGs: pint evaluates the text), every failure treated as 'not a unit', no super-linear regex or recursion on it; the grammar makes comments one line-bounded terminal and accepts comment / blank lines inside tagged blocks; no generator, template or scheme reads unit / description / comment. 'Never hangs' as such is not decided.",
         note="pint behaviour as observed for 0.26.",
         ref="3/C17",
     ),
     "C19": dict(
-        technique="static analysis: reserved-name extraction from template skeletons / argument tables vs presence of a guard; whole-word regex check; grammar terminals; printed-text-only interpolation lint over print methods",
+        technique="static analysis: reserved-name extraction from template skeletons / argument tables vs presence of a guard; whole-word regex check; grammar terminals; printed-text-only interpolation lint over print methods; since the rebuild the function-level clauses are decided on abstract values (sa/av.py: symbolic summaries of what a function computes, compared with the vetted reference value; three-valued: ok / violation / undecided)",
         text="Decides the set of names the generated code uses for itself and whether a guard covers it (today none: KNOWN-FINDING), that post-processing cannot corrupt identifiers, that only the exact token `pi` is the constant, that the Myokit importer renames consistently, and that print methods only interpolate printed text (sympy's reserved-word renaming cannot be bypassed). Behaviour per identifier is not decided.",
         note="",
         ref="3/C19",
@@ -149,10 +149,10 @@ manifest = {
         "add_only": True,
     },
     "engines": [
-        {"name": "sa", "path": "sa/", "serves_properties": sorted(CLAIMED), "kind_free_text": "repository-specific static analysis engine: source model (ast), order-provenance dataflow, path/term evaluator, slot families, flow rules, grammar / printer / template models"},
+        {"name": "sa", "path": "sa/", "serves_properties": sorted(CLAIMED), "kind_free_text": "repository-specific static analysis engine: source model (ast), abstract value evaluator (symbolic summaries with algebraic normalisation, no execution), order-provenance dataflow, path/term evaluator, slot families, flow rules, grammar / printer / template models"},
     ],
     "checks": [],
-    "notes": "All checks are ./check <ID> [--tier quick|thorough] [--repo DIR]; exit 0 held / 1 VIOLATION / 2 ANALYSIS-ERROR. Thorough = quick + in-memory liveness self-test of every rule (micro-mutations of the current source). Known findings: known_findings.json.",
+    "notes": "All checks are ./check <ID> [--tier quick|thorough] [--repo DIR]; exit 0 held / 1 VIOLATION / 2 ANALYSIS-ERROR. Thorough = quick + in-memory liveness self-test of every rule (micro-mutations of the current source) + regression corpus of seeded changes (must be reported) + negative corpus of behaviour-preserving refactorings (must stay silent). Known findings: known_findings.json.",
     "not_applicable": [],
 }
 for p in props:
